@@ -753,6 +753,28 @@ def corpus():
            "ops": [["set", 1, 1], ["connect", 2, 1], ["set", 3, 101], ["set", 4, 102], ["flag", 1, 1, 0],
                    ["run", 1, [], []], ["run", 1, [["z", 2]], []], ["flag", 1, 0, 1], ["run", 1, [], []],
                    ["flag", 1, 0, 0], ["run", 1, [], []], ["run", 1, [], []]]}
+    # through pickle: a never-set input stays missing (gate shut, ReadinessError), an input whose only upstream holds
+    # no data keeps its own value, both on the copy (`no data` is the marker, by identity, before and after)
+    yield {"fam": "corpus", "wf": True, "nodes": ["SrcU", "C3", "C3"],
+           "ops": [["set", 3, 101], ["set", 4, 5], ["connect", 2, 1], ["set", 9, 101], ["set", 10, 5], ["set", 8, 9],
+                   ["connect", 8, 1], ["rt", "pickle"], ["run", 1, [], []], ["run", 2, [], []], ["rt", "cloud"],
+                   ["fetch", 2], ["run", 1, [], []], ["set", 1, 3], ["run", 1, [], []]]}
+    # through pickle with two upstreams holding data: the most recently connected one must still win (KF-C03-1 =
+    # KF-C07-1: the pinned tree restores the connections in stored order and `connect` prepends)
+    yield {"fam": "corpus", "wf": True, "nodes": ["SrcU", "SrcU", "C3"],
+           "ops": [["set", 1, 1], ["set", 3, 2], ["connect", 4, 1], ["connect", 4, 3], ["set", 5, 101], ["set", 6, 5],
+                   ["rt", "pickle"], ["run", 2, [], []]]}
+    # look-alikes of a quantity are judged as what they are, real quantities by their magnitude: store, fetch, call
+    yield {"fam": "corpus", "nodes": ["SrcU", "C3", "CF"],
+           "ops": [["set", 2, 220], ["set", 2, 230], ["set", 3, 222], ["set", 3, 101], ["set", 4, 227],
+                   ["run", 1, [], []], ["set", 8, 221], ["set", 8, 230], ["set", 8, 231], ["set", 9, 223], ["set", 9, 213],
+                   ["set", 1, 221], ["connect", 8, 1], ["run", 2, [["z", 225]], []], ["strict", 8, 0],
+                   ["run", 2, [["z", 225]], []], ["rtnode", 2, "pickle"], ["run", 2, [], []]]}
+    # a free-standing macro through pickle: the re-forged links push the macro's values into the child
+    yield {"fam": "corpus", "nodes": ["MU", "MM"],
+           "ops": [["set", 0, 4], ["set", 6, 7], ["set", 7, 101], ["set", 2, 5], ["rtnode", 0, "pickle"],
+                   ["run", 1, [], []], ["set", 12, 3], ["set", 24, 9], ["rtnode", 2, "cloud"], ["link", 12, None],
+                   ["rtnode", 2, "pickle"]]}
     # copy_io with hard failure reverts
     yield {"fam": "corpus", "nodes": ["C3", "C3"],
            "ops": [["strict", 6, 0], ["set", 6, 104], ["set", 7, 101], ["set", 8, 1], ["set", 1, 102],
@@ -819,8 +841,8 @@ _VARIANT = None
 
 def _variant():
     """which `__setstate__` the library under test has (the two switches of the model's Cfg), probed once per worker
-    on two tiny objects: does a restored input keep the order of its connections, is a re-forged value link pushed
-    through the receiver's setter.  This only selects the model variant to compare with; the oracle does not know it."""
+    on three tiny objects: does a restored input keep the order of its connections, is a re-forged input / output value
+    link pushed through the receiver's setter.  This only selects the model variant to compare with; the oracle does not know it."""
     global _VARIANT
     if _VARIANT is not None:
         return _VARIANT
@@ -830,7 +852,7 @@ def _variant():
 
     from . import nodes_c03 as N
 
-    rev, push = 0, 1
+    rev, push, pusho = 0, 0, 1
     try:
         wf = Workflow("probe", autoload=None)
         a, b, c = N.SrcU(label="a"), N.SrcU(label="b"), N.C3(label="c")
@@ -850,7 +872,15 @@ def _variant():
         push = int(_canon(m2.children["c"].inputs.z.value) == "5")
     except Exception:  # noqa: BLE001
         pass
-    _VARIANT = (rev, push)
+    try:
+        m = N.MU(label="m")
+        m.children["c"].outputs.oz.value = 7
+        m.outputs.oz.value = 5
+        m2 = pickle.loads(pickle.dumps(m))
+        pusho = int(_canon(m2.outputs.oz.value) == "7")
+    except Exception:  # noqa: BLE001
+        pass
+    _VARIANT = (rev, push, pusho)
     return _VARIANT
 
 
@@ -1076,8 +1106,8 @@ def _rtline(nodes, chans, roots, with_wf):
 def model_input(case, impl=None):
     nodes, chans, links = layout(case["nodes"])
     lines = []
-    rev, push = (impl or {}).get("variant") or (0, 1)
-    lines.append(f"cfg {rev} {push}")
+    rev, push, pusho = (impl or {}).get("variant") or (0, 0, 1)
+    lines.append(f"cfg {rev} {push} {pusho}")
     for c in chans:
         lines.append(f"chan {c['id']} {'di' if c['panel'] == 'in' else 'do'} {c['node']} "
                      f"{0 if c['hint'] is None else 1} 1")
